@@ -202,7 +202,8 @@ fn main() {
         k += 1;
         let mut master = [0u8; 32];
         master.copy_from_slice(&ctx.rng.bytes(32));
-        if k % 7 == 0 { for b in master.iter_mut().skip(1) { *b = 0; } }          // almost-zero seed
+        if k % 7 == 0 { for b in master.iter_mut().skip(1) { *b = 0; } }
+        if master == [0u8; 32] { master[0] = 1; } // the all-zero seed equals the wiping pattern: not a genuine secret
         if k % 11 == 0 { master = [0xff; 32]; master[31] = k as u8; }
         // depths 1..4: every period of both constructions
         for d in 1..=4u32 {
